@@ -1,6 +1,7 @@
 package main
 
 import (
+	"go/token"
 	"fmt"
 	"go/types"
 	"os"
@@ -154,6 +155,7 @@ type Executor struct {
 	topPkg     *types.Package
 	topName    string
 	curFrame   *Frame
+	curTokPos  token.Pos // position of the instruction being executed (lexical lookup of locals in at-call clauses)
 }
 
 func (x *Executor) recordWrite(comp string) {
